@@ -18,6 +18,7 @@ from glotaran.project import Result
 from glotaran.project import Scheme
 from glotaran.utils.regex import RegexPattern
 from glotaran.utils.tee import TeeContext
+from glotaran.utils import verif_trace as _vt
 
 if TYPE_CHECKING:
     from glotaran.typing.types import ArrayLike
@@ -126,6 +127,7 @@ class Optimizer:
 
         self._parameter_history = ParameterHistory()
         self._parameter_history.append(scheme.parameters)
+        if _vt.ENABLED: _vt.emit("constructed", opt=str(id(self)), tee=str(id(self._tee)), nh=self._parameter_history.number_of_records, method=self._method, verbose=bool(verbose), raise_exception=bool(raise_exception), x=_vt.free_digest(scheme.parameters), xr=_vt.free_digest(scheme.parameters, 12), snap=_vt.values_digest(scheme.parameters), **_vt.optimizer_lengths(self))  # noqa: E501,E701
 
     def optimize(self):
         """Perform the optimization.
@@ -156,7 +158,9 @@ class Optimizer:
                     xtol=self._scheme.xtol,
                 )
                 self._termination_reason = self._optimization_result.message
+                if _vt.ENABLED: _vt.emit("opt_returned", opt=str(id(self)), x=_vt.digest(self._optimization_result.x), xr=_vt.rounded_digest(self._optimization_result.x, 12), nh=self._parameter_history.number_of_records)  # noqa: E501,E701
             except Exception as e:
+                if _vt.ENABLED: _vt.emit("opt_exception", opt=str(id(self)), err=type(e).__name__, msg=str(e)[:200], raise_exception=bool(self._raise), nh=self._parameter_history.number_of_records, **_vt.optimizer_lengths(self))  # noqa: E501,E701
                 if self._raise:
                     raise e
                 warn(f"Optimization failed:\n\n{e}")
@@ -175,6 +179,7 @@ class Optimizer:
         ArrayLike
             The objective for the optimizer.
         """
+        if _vt.ENABLED: _vt.emit("eval_begin", opt=str(id(self)), final=False, x=_vt.digest(parameters), xr=_vt.rounded_digest(parameters, 12), nh=self._parameter_history.number_of_records, **_vt.optimizer_lengths(self))  # noqa: E501,E701
         self._parameters.set_from_label_and_value_arrays(self._free_parameter_labels, parameters)
         return self.calculate_penalty()
 
@@ -194,6 +199,7 @@ class Optimizer:
 
         penalties = [group.get_full_penalty() for group in self._optimization_groups]
 
+        if _vt.ENABLED: _vt.emit("eval_ok", opt=str(id(self)), xv=_vt.free_digest(self._parameters), pen=_vt.digest(np.concatenate(penalties)), finite=bool(np.all(np.isfinite(np.concatenate(penalties)))), nh=self._parameter_history.number_of_records, **_vt.optimizer_lengths(self))  # noqa: E501,E701
         return np.concatenate(penalties) if len(penalties) != 1 else penalties[0]
 
     def create_result(self) -> Result:
@@ -212,9 +218,11 @@ class Optimizer:
         success = self._optimization_result is not None
 
         if self._parameter_history.number_of_records == 1:
+            if _vt.ENABLED: _vt.emit("initial_parameter_error", opt=str(id(self)), nh=self._parameter_history.number_of_records)  # noqa: E501,E701
             raise InitialParameterError()
         elif not success:
             self._parameters.set_from_history(self._parameter_history, -2)
+            if _vt.ENABLED: _vt.emit("fallback", opt=str(id(self)), index=-2, nh=self._parameter_history.number_of_records, x=_vt.free_digest(self._parameters), xr=_vt.free_digest(self._parameters, 12))  # noqa: E501,E701
 
         result_args = {
             "success": success,
@@ -263,6 +271,7 @@ class Optimizer:
                 )
             )
 
+        if _vt.ENABLED: _vt.emit("eval_begin", opt=str(id(self)), final=True, x=_vt.free_digest(self._parameters), xr=_vt.free_digest(self._parameters, 12), nh=self._parameter_history.number_of_records, **_vt.optimizer_lengths(self))  # noqa: E501,E701
         full_penalty = self.calculate_penalty()
         result_args["additional_penalty"] = [
             group.get_additional_penalties() for group in self._optimization_groups
@@ -273,9 +282,12 @@ class Optimizer:
 
         result_args["data"] = {}
         for group in self._optimization_groups:
+            if _vt.ENABLED: _vt.emit("result_calc_begin", opt=str(id(self)), nh=self._parameter_history.number_of_records)  # noqa: E501,E701
             group.calculate(self._parameters)
+            if _vt.ENABLED: _vt.emit("result_calc_ok", opt=str(id(self)), nh=self._parameter_history.number_of_records, **_vt.optimizer_lengths(self))  # noqa: E501,E701
             result_args["data"].update(group.create_result_data())
 
+        if _vt.ENABLED: _vt.emit("result", opt=str(id(self)), success=bool(success), reason=str(self._termination_reason)[:200], nh=self._parameter_history.number_of_records, nfev=int(result_args["number_of_function_evaluations"]), x=_vt.free_digest(self._parameters), xr=_vt.free_digest(self._parameters, 12), snap=_vt.values_digest(self._scheme.parameters))  # noqa: E501,E701
         return Result(**result_args)
 
     def calculate_covariance_matrix_and_standard_errors(
